@@ -35,7 +35,7 @@ static_assert(P::IsModelEigen<SModel> && P::IsModelEigen<PModel>);
 
 static uint64_t g_seed = 0;
 static const long NSOLV = 7;        // blind, fib+qmdp, pbvi, perseus, sarsop, gapmin, kernels(bestConservative/bestPromising)
-static const long NFIXED = 16;      // hand-written witness / regression POMDPs come first (10, 11: GapMin regression instances)
+static const long NFIXED = 19;      // hand-written witness / regression POMDPs come first (10, 11: GapMin regression instances)
 
 struct Inst {
     PomdpTables t;
@@ -115,6 +115,40 @@ static Inst fixedInst(long k) {
         I.b0 = AIToolbox::Vector::Zero(S);
         if (S == 1) I.b0[0] = 1.0; else if (k == 13) { I.b0[0] = 0.5; I.b0[2] = 0.5; } else { I.b0[0] = 0.25; I.b0[1] = 0.75; }
         I.shape = "fixed_impossible_obs"; I.kind = (int)(k % 3);
+        break;
+    }
+    // transition probabilities below the library's `equalToleranceSmall` (2^-21 < 1e-6) towards a valuable state, positive rewards: the mass
+    // GapMin::makeNewPomdp / LPInterpolation / bestPromisingAction drop is worth something (Props/C03Trunc.lean bounds what it can cost)
+    case 16: case 17: {
+        I = genInst(1, k == 16 ? 183 : 90, true);
+        for (size_t s = 0; s < I.t.S; ++s) for (size_t a = 0; a < I.t.A; ++a) I.t.R(s, a) += 9.0;      // same policy structure, all values positive
+        const double tiny = std::ldexp(1.0, -21);
+        for (size_t a = 0; a < I.t.A; ++a) for (size_t s = 0; s < I.t.S; ++s) {
+            size_t big = 0, zero = I.t.S; for (size_t s1 = 0; s1 < I.t.S; ++s1) { if (I.t.T[a](s, s1) > I.t.T[a](s, big)) big = s1; if (I.t.T[a](s, s1) == 0.0 && zero == I.t.S) zero = s1; }
+            if (zero < I.t.S) { I.t.T[a](s, zero) += tiny; I.t.T[a](s, big) -= tiny; }
+        }
+        I.shape = "fixed_tiny_probability"; I.gapDigits = k == 16 ? 4 : 5;
+        break;
+    }
+    // Cut-off witness. States 0,1,2: a block in which all actions coincide (FIB, blind strategies and V* agree at those corners): 0 stays with
+    // probability 1/2 and reaches the valuable absorbing state 1 with probability 2^-21 < equalToleranceSmall, else the poor absorbing state 2.
+    // States 3,4: a tiger-like block that keeps GapMin refining. All beliefs on the way are interior, so GapMin stores them and rebuilds its
+    // belief-augmented POMDP; makeNewPomdp drops the weight 2^-22 on state 1 in the row of corner 0, and every FIB pass lowers ubQ(0,.) further
+    // below V*(e0) (by gamma * 2^-21 * V(1) = 3.8e-6 in the first pass).
+    case 18: {
+        PomdpTables & t = I.t; t.S = 5; t.A = 3; t.O = 2; t.discount = 0.5;
+        t.T.assign(3, AIToolbox::Matrix2D::Zero(5, 5)); t.Ob.assign(3, AIToolbox::Matrix2D::Zero(5, 2)); t.R = AIToolbox::Matrix2D::Zero(5, 3);
+        const double p = std::ldexp(1.0, -21);
+        for (size_t a = 0; a < 3; ++a) {
+            t.T[a](0, 0) = 0.5; t.T[a](0, 1) = p; t.T[a](0, 2) = 0.5 - p; t.T[a](1, 1) = 1.0; t.T[a](2, 2) = 1.0;
+            for (size_t s = 0; s < 3; ++s) { t.Ob[a](s, 0) = 0.5; t.Ob[a](s, 1) = 0.5; }
+            t.R(0, a) = 1.0; t.R(1, a) = 8.0; t.R(2, a) = 1.0;
+        }
+        t.T[0](3, 3) = 1.0; t.T[0](4, 4) = 1.0;                                   // listen
+        t.Ob[0](3, 0) = 0.875; t.Ob[0](3, 1) = 0.125; t.Ob[0](4, 0) = 0.125; t.Ob[0](4, 1) = 0.875;
+        for (size_t a = 1; a < 3; ++a) for (size_t s = 3; s < 5; ++s) { t.T[a](s, 3) = 0.5; t.T[a](s, 4) = 0.5; t.Ob[a](s, 0) = 0.5; t.Ob[a](s, 1) = 0.5; }
+        t.R(3, 0) = 1.0; t.R(4, 0) = 1.0; t.R(3, 1) = 0.0; t.R(4, 1) = 8.0; t.R(3, 2) = 8.0; t.R(4, 2) = 0.0;
+        I.b0 = vec({0.25, 0.125, 0.125, 0.25, 0.25}); I.shape = "fixed_cutoff_witness"; I.gapDigits = 7;
         break;
     }
     default: {
